@@ -13,8 +13,10 @@ use fast_qr::QRCode;
 use serde_json::{json, Value};
 use std::sync::atomic::{AtomicU64, Ordering};
 
-pub const OPEN_FAULTS: [&str; 6] = ["EACCES", "EROFS", "ENOENT", "EISDIR", "ENOSPC", "EMFILE"];
-pub const WRITE_FAULTS: [&str; 7] = ["ENOSPC", "EIO", "EDQUOT", "EINTR", "SHORT1", "SHORTHALF", "SHORTLAST"];
+// a trailing '+' = persistent (this call and every later call of that kind fails the same way): a writer that
+// retries must give up with an error, not fall through to Ok
+pub const OPEN_FAULTS: [&str; 12] = ["EACCES", "EROFS", "ENOENT", "EISDIR", "ENOSPC", "EMFILE", "ETXTBSY", "EBUSY", "EAGAIN+", "ETXTBSY+", "EBUSY+", "ETIMEDOUT+"];
+pub const WRITE_FAULTS: [&str; 11] = ["ENOSPC", "EIO", "EDQUOT", "EINTR", "SHORT1", "SHORTHALF", "SHORTLAST", "EFBIG", "EAGAIN+", "ENOSPC+", "EIO+"];
 
 fn symbol(v: usize) -> Option<Box<QRCode>> {
     let input = content(Family::Ctr, 2, crate::refmodel::cap(v, 1, 2));
@@ -194,7 +196,7 @@ fn judge_os(run: &Run, path: &str) -> Vec<(String, String)> {
 
 pub fn run(ctx: &Ctx) -> Collector {
     let col = Collector::new("C19", "fault_enumeration");
-    col.set_rule("cases = for SvgBuilder::to_file and ImageBuilder::to_file on 8 (thorough 14) builder/symbol targets whose output sizes range from 0.3 KB to 0.5 MB and straddle the 4 KiB, 8 KiB and 64 KiB buffer sizes: (i) real OS faults: missing directory, path is a directory, /dev/full (ENOSPC at write time), path containing NUL, empty path, long paths with multi-byte characters at four alignments, a 300-character name; (i') no fault over 7 kinds of file already present (identical, same length differing in the last / first / one late byte, longer, shorter, empty); (ii) faults injected below the crate by an LD_PRELOAD shim over open/open64/openat/write/close: ALL fault sequences of up to 2 (thorough 3) deviations, a deviation = (k-th open of the target, class in {EACCES, EROFS, ENOENT, EISDIR, ENOSPC, EMFILE}) or (k-th write to the target, class in {ENOSPC, EIO, EDQUOT, EINTR, short 1 byte, short n/2, short n-1}), k ranging over every call index in the syscall log of the run being extended (DFS over prefixes); each run is a child process calling the real to_file, once with no file present and once over a stale 1 MiB file (longer than any output); oracle: no panic/abort; Ok => file bytes = to_str()/to_bytes() of the same builder; after any delivered fault Err is accepted, Ok only with the exact bytes in the file (a writer that recovers and completes the file is right); non-trivial = a fault was delivered; distinct = distinct (target, plan) pairs with distinct syscall logs");
+    col.set_rule("cases = for SvgBuilder::to_file and ImageBuilder::to_file on 8 (thorough 14) builder/symbol targets whose output sizes range from 0.3 KB to 0.5 MB and straddle the 4 KiB, 8 KiB and 64 KiB buffer sizes: (i) real OS faults: missing directory, path is a directory, /dev/full (ENOSPC at write time), path containing NUL, empty path, long paths with multi-byte characters at four alignments, a 300-character name; (i') no fault over 7 kinds of file already present (identical, same length differing in the last / first / one late byte, longer, shorter, empty); (ii) faults injected below the crate by an LD_PRELOAD shim over open/open64/openat/write/close: ALL fault sequences of up to 2 (thorough 3) deviations, a deviation = (k-th open of the target, class in {EACCES, EROFS, ENOENT, EISDIR, ENOSPC, EMFILE, ETXTBSY, EBUSY, and persistently EAGAIN, ETXTBSY, EBUSY, ETIMEDOUT}) or (k-th write to the target, class in {ENOSPC, EIO, EDQUOT, EFBIG, EINTR, short 1 byte, short n/2, short n-1, and persistently EAGAIN, ENOSPC, EIO}), k ranging over every call index in the syscall log of the run being extended (DFS over prefixes); each run is a child process calling the real to_file, once with no file present and once over a stale 1 MiB file (longer than any output); oracle: no panic/abort; Ok => file bytes = to_str()/to_bytes() of the same builder; after any delivered fault Err is accepted, Ok only with the exact bytes in the file (a writer that recovers and completes the file is right); non-trivial = a fault was delivered; distinct = distinct (target, plan) pairs with distinct syscall logs");
     col.assume("the OS below the syscall boundary is modelled by the shim's fault classes; faults at close/fsync are not modelled because the crate does not call fsync and ignores close errors like std does");
     let thorough = ctx.tier.thorough();
     let dir = format!("{}/scratch/c19-{}", ctx.verif_dir, std::process::id());
